@@ -506,7 +506,7 @@ def r5b_estimated_volumes(repo: Repo, rep):
                  why="ceil(d * estimate) points are returned where d * |actual set| are expected")
     ops = f"{DOM}.domainoperations"
     n = 0
-    for mod in ("union", "cut", "intersection"):
+    for mod in ("union", "cut", "intersection", "translate", "rotate"):  # a moved domain has the measure of the domain it wraps: that one, possibly an operation itself, converts the density
         m = repo.module(f"{ops}.{mod}")
         for ci in m.classes.values():
             for fi in ci.methods.values():
@@ -595,6 +595,27 @@ def _anon(e: ast.AST) -> str:
     return dump(Blank().visit(copy.deepcopy(e)))
 
 
+def r9_measures_broadcast(repo: Repo, rep):
+    R = rep.rule("R-C10-9", "a measure combines the per-row shape quantities (corners, directions, radii: one row for a constant parameter, N rows for a parameter-dependent one) by "
+                 "BROADCASTING arithmetic only: no torch.stack / vstack / cat along the row axis of several of them", floor=10,
+                 why="stack((dir_1, dir_2, dir_3)) needs equal shapes: a triangle with two constant corners and one moving corner has directions of shape (1, 2) and (N, 2) - the perimeter raises for N >= 2")
+    dom = repo.cls("problem.domains.domain.Domain")
+    for ci in repo.subclasses(dom, strict=False):
+        fi = ci.methods.get("_get_volume")
+        if fi is None:
+            continue
+        rep.saw(fi)
+        bad = []
+        for c in ast.walk(fi.node):
+            if isinstance(c, ast.Call) and (attr_chain(c.func) or "") in ("torch.stack", "torch.vstack", "torch.row_stack", "torch.cat", "torch.concat") and c.args \
+                    and isinstance(c.args[0], (ast.Tuple, ast.List)) and len(c.args[0].elts) >= 2:
+                dim = kwarg(c, "dim", 1)
+                rowwise = attr_chain(c.func) in ("torch.stack", "torch.vstack", "torch.row_stack") or dim is None or (isinstance(dim, ast.Constant) and dim.value == 0)
+                if rowwise and all(isinstance(e, (ast.Name, ast.Attribute, ast.Call, ast.BinOp)) for e in c.args[0].elts):
+                    bad.append(dump(c)[:70])
+        rep.check(R, not bad, fi.site(), fi.fq, "shape quantities are combined by broadcasting arithmetic", str(bad[:1]), str(bad[:1]))
+
+
 def r8_dependent_product_average(repo: Repo, rep):
     R = rep.rule("R-C10-8", "the approximated measure of a dependent product averages, for EACH parameter row, over that row's own sample values: the evaluations come parameter-major "
                  "(_repeat_params interleaves: row i occupies entries i*N .. (i+1)*N-1), so they are reshaped to (rows, N) and reduced over axis 1", floor=2,
@@ -632,6 +653,7 @@ def run(repo: Repo, rep):
     from .c02 import r11_topped_up_count  # with a density the number of rows IS the statement about the measure: ceil(d * volume) rows, not whatever the last top-up round left
     r11_topped_up_count(repo, rep)
     r8_dependent_product_average(repo, rep)
+    r9_measures_broadcast(repo, rep)
     from .c01 import r1_facts  # density sampling of a Boolean combination delivers about d * measure rows only if candidates drawn in one operand are tested against the OTHER: rows outside the combination inflate the count
     r1_facts(repo, rep)
     from .generic import g_arg_constructor_parameters
